@@ -196,6 +196,12 @@ Definition acc (evs : list event) : list pkt :=
   flat_map (fun e => match e with EAcc p => [p] | _ => [] end) evs.
 Definition wire (evs : list event) : list pkt :=
   flat_map (fun e => match e with EWire _ p => [p] | _ => [] end) evs.
+(* packets for which goroutine t's WritePacket returned nil, in the order of the calls *)
+Definition oks_t (t : nat) (evs : list event) : list pkt :=
+  flat_map (fun e => match e with ERes t' p ROk => if Nat.eqb t' t then [p] else [] | _ => [] end) evs.
+(* the same for all goroutines together *)
+Definition oks (evs : list event) : list pkt :=
+  flat_map (fun e => match e with ERes _ p ROk => [p] | _ => [] end) evs.
 Definition po (l : list pkt) : list pkt := filter is_po l.
 Definition cv (l : list pkt) : list pkt := filter is_cv l.
 
@@ -205,6 +211,11 @@ Fixpoint pkts_eqb (a b : list pkt) : bool :=
   | x :: a', y :: b' => pkt_eqb x y && pkts_eqb a' b'
   | _, _ => false
   end.
+
+Definition inb (p : pkt) (l : list pkt) : bool := existsb (pkt_eqb p) l.
+
+(* the packets of [l] that belong to the program [ps] of one writer *)
+Definition owned (ps : list pkt) (l : list pkt) : list pkt := filter (fun p => inb p ps) l.
 
 (* the equations of the property on a finished run, as a boolean (for check_all_schedules) *)
 Definition trace_ok (s : st) (evs : list event) : bool :=
